@@ -1,6 +1,7 @@
 package main
 
 import (
+	"go/token"
 	"fmt"
 	"go/types"
 	"strings"
@@ -97,7 +98,6 @@ var c04JSON = map[string]string{
 // tls.Unmarshal callers that do not promise a complete parse
 var c04RestExceptions = map[string]string{
 	"x509util.showCTSCT":                      "pretty-printer: shows whatever decodes, result is text only",
-	"trillian/ctfe.marshalGetEntriesResponse": "diagnostic decode for logging; the stored bytes are served unchanged by design",
 	"tls.Unmarshal":                           "the API itself: forwards to UnmarshalWithParams and hands the remaining bytes to its caller",
 }
 
@@ -568,6 +568,18 @@ func c04Rest(r *Run) {
 		for _, c := range sites[fname] {
 			if fname != "tls.Unmarshal" {
 				n++
+				// a site in a generic function stands for one decode per instantiation
+				if c.Parent().TypeParams().Len() > 0 {
+					inst := 0
+					for f := range r.P.AllFuncs {
+						if f.Origin() == c.Parent() {
+							inst++
+						}
+					}
+					if inst > 1 {
+						n += inst - 1
+					}
+				}
 			}
 			target := "?"
 			if a := CallArgs(c); len(a) > 1 {
@@ -581,6 +593,19 @@ func c04Rest(r *Run) {
 			if why, ok := c04RestExceptions[fname]; ok {
 				r.Pass(key, r.Where(c), "named exception: "+why)
 				continue
+			}
+			// a decode whose result nothing reads accepts nothing: a diagnostic (the outcome is only tested,
+			// to log) — wherever it stands
+			if c04DiagnosticDecode(c) {
+				r.Pass(key, r.Where(c), "diagnostic decode: the decoded value is never read, error and remainder are only tested")
+				continue
+			}
+			// a pure predicate "decodes completely": true exactly for (no error, no remainder)
+			if sig := c.Parent().Signature; sig.Results().Len() == 1 && types.Identical(sig.Results().At(0).Type(), types.Typ[types.Bool]) {
+				if _, _, _, why := c14DecodePredicate(r, c.Parent()); why == "" {
+					r.Pass(key, r.Where(c), "predicate: returns true exactly when the decode succeeded and left nothing over")
+					continue
+				}
 			}
 			c04RestSite(r, c.Parent(), c, key, fname, c04RestMarkers)
 		}
@@ -622,6 +647,24 @@ func c04JSONRules(r *Run) {
 		r.FailEdge(fn, key, EdgeSpec{Name: "length-not-32", Atom: ordAtomR("32", "len("+what+")"), Bad: "<,>", Want: wantErr(true),
 			Unreach: asInstrs(CallsTo(fn, "copy"))})
 	}
+	// form 2 of "the array member holds the bytes of the slice member" (rules_t5c04.go): no copy call at
+	// all, the array is stored as the slice-to-array conversion of the slice
+	converted := func(fn *ssa.Function, key, path, src string) ([]ssa.Instruction, int64, bool) {
+		if len(CallsTo(fn, "copy")) != 0 {
+			return nil, 0, false
+		}
+		conv, n := c04ConvertedField(r, fn, key, path, src)
+		if n != 0 {
+			r.Check(key, n == 32, r.FnPos(fn), fmt.Sprintf("no call to copy; %s is stored as a [%d]byte value (a SHA-256 value has 32 bytes)", path, n))
+		}
+		return conv, 32, true // when the stores were not decided (reported under .dst/.src) the length guard is still owed
+	}
+	// … whose length guard must precede the conversion itself (it panics on a short slice), and
+	// must leave no success return for any other length
+	lenGuardN := func(fn *ssa.Function, key, what string, n int64, conv []ssa.Instruction) {
+		r.FailEdge(fn, key, EdgeSpec{Name: "length-not-32", Atom: ordAtomR(fmt.Sprint(n), "len("+what+")"), Bad: "<,>", Want: wantErr(true), Unreach: conv})
+		c04ConvertedLenGuard(r, fn, key+":length-before-conversion", what, n, conv)
+	}
 	// the unique tls.Unmarshal of fn, reading `from`
 	decoder := func(fn *ssa.Function, key, from string) ssa.CallInstruction {
 		c := r.OneCall(fn, key+":unmarshal", "tls.Unmarshal")
@@ -659,11 +702,15 @@ func c04JSONRules(r *Run) {
 			decodedField(fn, k, ret, "Signature", "ct.DigitallySigned", c)
 		}
 		r.Check(k+":one-success-return", len(successReturns(fn)) == 1, r.FnPos(fn), fmt.Sprintf("%d success returns", len(successReturns(fn))))
-		if c := r.OneCall(fn, k+":id", "copy"); c != nil {
-			c04CopyDst(r, fn, k+":id.dst", c, "new:ct.SignedCertificateTimestamp#*", "LogID.KeyID")
-			r.ExpectArg(c, k+":id.src", 1, "p0.ID")
+		if conv, n, ok := converted(fn, k+":id", "LogID.KeyID", "p0.ID"); ok {
+			lenGuardN(fn, k, "p0.ID", n, conv)
+		} else {
+			if c := r.OneCall(fn, k+":id", "copy"); c != nil {
+				c04CopyDst(r, fn, k+":id.dst", c, "new:ct.SignedCertificateTimestamp#*", "LogID.KeyID")
+				r.ExpectArg(c, k+":id.src", 1, "p0.ID")
+			}
+			lenGuard(fn, k, "p0.ID")
 		}
-		lenGuard(fn, k, "p0.ID")
 		r.ErrorsGate(fn, k+":errors", "*", 2)
 	}
 	if fn := r.Fn("(*ct.GetSTHResponse).ToSignedTreeHead"); fn != nil {
@@ -676,11 +723,15 @@ func c04JSONRules(r *Run) {
 			decodedField(fn, k, ret, "TreeHeadSignature", "ct.DigitallySigned", c)
 		}
 		r.Check(k+":one-success-return", len(successReturns(fn)) == 1, r.FnPos(fn), fmt.Sprintf("%d success returns", len(successReturns(fn))))
-		if c := r.OneCall(fn, k+":root", "copy"); c != nil {
-			c04CopyDst(r, fn, k+":root.dst", c, "new:ct.SignedTreeHead#*", "SHA256RootHash")
-			r.ExpectArg(c, k+":root.src", 1, "p0.SHA256RootHash")
+		if conv, n, ok := converted(fn, k+":root", "SHA256RootHash", "p0.SHA256RootHash"); ok {
+			lenGuardN(fn, k, "p0.SHA256RootHash", n, conv)
+		} else {
+			if c := r.OneCall(fn, k+":root", "copy"); c != nil {
+				c04CopyDst(r, fn, k+":root.dst", c, "new:ct.SignedTreeHead#*", "SHA256RootHash")
+				r.ExpectArg(c, k+":root.src", 1, "p0.SHA256RootHash")
+			}
+			lenGuard(fn, k, "p0.SHA256RootHash")
 		}
-		lenGuard(fn, k, "p0.SHA256RootHash")
 		r.ErrorsGate(fn, k+":errors", "*", 1)
 	}
 	if fn := r.Fn("(*ct.DigitallySigned).FromBase64String"); fn != nil {
@@ -758,4 +809,79 @@ func c04JSONRules(r *Run) {
 			r.Check("SHA256Hash.Base64String:value", r.D.D(ret.Results[0]) == "(*base64.Encoding).EncodeToString("+std+", p0[:])", r.Where(ret), "returns "+r.D.D(ret.Results[0]))
 		}
 	}
+}
+
+// c04DiagnosticDecode: the destination of this tls.Unmarshal call is a local that nothing else touches, and the
+// remainder and error results are used only in length / nil tests.
+func c04DiagnosticDecode(c ssa.CallInstruction) bool {
+	args := CallArgs(c)
+	if len(args) < 2 {
+		return false
+	}
+	al := baseAlloc(args[1])
+	if al == nil {
+		return false
+	}
+	for _, ref := range *al.Referrers() {
+		switch x := ref.(type) {
+		case *ssa.MakeInterface, *ssa.ChangeInterface:
+			v := x.(ssa.Value)
+			for _, r2 := range *v.Referrers() {
+				if r2 != ssa.Instruction(c.(*ssa.Call)) {
+					if _, dbg := r2.(*ssa.DebugRef); !dbg {
+						return false
+					}
+				}
+			}
+		case *ssa.DebugRef:
+		default:
+			return false
+		}
+	}
+	onlyTested := func(v ssa.Value) bool {
+		if v == nil {
+			return true
+		}
+		for _, ref := range *v.Referrers() {
+			switch x := ref.(type) {
+			case *ssa.BinOp:
+				if x.Op != token.EQL && x.Op != token.NEQ && x.Op != token.GTR && x.Op != token.LSS && x.Op != token.GEQ && x.Op != token.LEQ {
+					return false
+				}
+				for _, r2 := range *x.Referrers() {
+					if _, isIf := r2.(*ssa.If); !isIf {
+						if _, dbg := r2.(*ssa.DebugRef); !dbg {
+							return false
+						}
+					}
+				}
+			case *ssa.Call:
+				b, isB := x.Call.Value.(*ssa.Builtin)
+				if !isB || b.Name() != "len" {
+					return false
+				}
+				for _, r2 := range *x.Referrers() {
+					bo, isBin := r2.(*ssa.BinOp)
+					if !isBin {
+						if _, dbg := r2.(*ssa.DebugRef); !dbg {
+							return false
+						}
+						continue
+					}
+					for _, r3 := range *bo.Referrers() {
+						if _, isIf := r3.(*ssa.If); !isIf {
+							if _, dbg := r3.(*ssa.DebugRef); !dbg {
+								return false
+							}
+						}
+					}
+				}
+			case *ssa.DebugRef:
+			default:
+				return false
+			}
+		}
+		return true
+	}
+	return onlyTested(CallResult(c, 0)) && onlyTested(CallResult(c, 1))
 }
